@@ -569,8 +569,14 @@ func ndAssert(fr *frame, args []value) value {
 			violations = append(violations, Violation{Kind: "assert", Msg: id, Model: model, Trail: trailChoices(fr.i.x), Values: replayValues(fr.i.x, model)})
 		}
 	case *sym:
-		fr.i.obligations++
 		fr.i.nontrivial = true
+		if fr.i.x.pos < len(fr.i.x.trail) {
+			// re-execution of a prefix: this very query (same path condition, same assertion) was
+			// decided when the prefix was first explored
+			fr.i.x.decide([]string{c.e})
+			return nil
+		}
+		fr.i.obligations++
 		sat, model := fr.i.x.checkSat(symNot(c).e)
 		if !sat {
 			fr.i.discharged++
